@@ -30,7 +30,7 @@ P = 'circus.process:Process.'
 
 
 def check(run, ctx):
-    run.each(ctx, [r1, r2, r3, r4, r5, r6, r7])
+    run.each(ctx, [r1, r2, r3, r4, r5, r6, r7, r8])
 
 
 def _event_dict(node, topic):
@@ -404,3 +404,10 @@ def r7(run, ctx):
     wf = ctx.fn(W + 'notify_event')
     run.check('R7', "'watcher.%s.%s' % (name, topic)" in norm_text(wf.node),
               'topics are published as watcher.<name>.<topic>', wf, wf.node)
+
+
+def r8(run, ctx):
+    from rules import c04
+    run.share(ctx, c04.r3, 'R3', 'R8', 'the periodic zombie sweep hands every collected status '
+              'to the watcher that owns the pid (shared with C04 R3): otherwise the death is '
+              'never announced by a reap event')
